@@ -85,6 +85,7 @@ class Emitter(object):
         self.stack = []
         self.glue_next = False
         self.ntokens = 0
+        self.empty_statements = 0
 
     # -- low level -----------------------------------------------------------
     def _write(self, s):
@@ -248,9 +249,13 @@ class Emitter(object):
         return ''.join(self.parts)
 
 
+STATS = dict(empty_statements=0)
+
+
 def render(root, rng=None, **kw):
     em = Emitter(rng, **kw)
     em.node(root)
+    STATS['empty_statements'] += em.empty_statements
     return em.text()
 
 
@@ -420,6 +425,9 @@ def stmt_list(stmts):
         for s in stmts:
             e.node(s)
             e.p(';')
+            if e.layout == 'random' and e.rng.random() < 0.04:
+                e.p(';')          # an empty statement: leaves no node behind
+                e.empty_statements += 1
     return N('StatementListNode', {}, list(stmts), emit=emit, checked=False)
 
 
